@@ -93,6 +93,8 @@ fn wkind_c(k: WKind) -> char {
         WKind::FmtPad => 'p',
         WKind::FmtDbg => 'd',
         WKind::Ch => 'c',
+        WKind::ListElem => 'e',
+        WKind::Title => 't',
     }
 }
 fn c_wkind(c: char) -> Option<WKind> {
@@ -107,6 +109,8 @@ fn c_wkind(c: char) -> Option<WKind> {
         'p' => WKind::FmtPad,
         'd' => WKind::FmtDbg,
         'c' => WKind::Ch,
+        'e' => WKind::ListElem,
+        't' => WKind::Title,
         _ => return None,
     })
 }
@@ -633,13 +637,20 @@ pub fn run_session<C: Autocomplete + Help>(
                     let tconv = convert_lf(&t);
                     let needs_break = !t.is_empty() && !t.ends_with('\n');
                     let tprime = if needs_break { format!("{}\r\n", tconv) } else { tconv.clone() };
+                    let unpinned = calls.iter().any(|c| c.kind.unpinned());
+                    if unpinned {
+                        rep.count("c13.calls_with_library_layout");
+                    }
                     rep.seen(hash_u64s(&[13, token_shape(&t), calls.len() as u64, inside as u64, pre_line.is_empty() as u64, (pre.line.len() == cfg.cmd) as u64]));
                     rep.count("c13.write_calls");
                     if inside {
                         rep.count("c13.write_with_cursor_inside");
                     }
                     // bytes: converted text appears contiguously
-                    if !contains(&call_bytes, tconv.as_bytes()) {
+                    if unpinned {
+                        // list elements / titles are laid out by the library: the bytes are not compared; that the prompt and
+                        // the line come back intact below the output is C06's row / column clause on this very call
+                    } else if !contains(&call_bytes, tconv.as_bytes()) {
                         found!("C13", P_C13, "write-text-altered", lf_tag(calls), i, "sink bytes {} do not contain the text {:?} with LF->CRLF", show_bytes(&call_bytes), t);
                     } else if term.gave_up.is_none() {
                         // rows: before-rows with the in-progress row replaced by rows(T') + prompt+line
@@ -961,7 +972,7 @@ pub fn run_session<C: Autocomplete + Help>(
                         }
                     }
                     // C13: handler output framing, byte exact
-                    if on(P_C13) && recs.len() == 1 && recs[0].played.is_some() {
+                    if on(P_C13) && recs.len() == 1 && recs[0].played.is_some() && !cfg.script[recs[0].played.unwrap()].writes.iter().any(|c| c.kind.unpinned()) {
                         rep.eval();
                         let act = &cfg.script[recs[0].played.unwrap()];
                         let t: String = act.writes.iter().map(|c| c.logical()).collect();
